@@ -611,6 +611,24 @@ func init() {
 		// ---- reflect (only for log lines: the Type value is nil and its methods are no-ops) ----
 		"reflect.TypeOf": func(i *interpreter, _ *frame, fn *ssa.Function, a []value) value { return zeroResult(fn) },
 
+		// ---- fastjson unsafe conversions (copies: in-place unescaping of strings with '\\' is outside) ----
+		"github.com/valyala/fastjson.b2s": func(i *interpreter, _ *frame, _ *ssa.Function, a []value) value {
+			b := a[0].([]value)
+			bs := make([]byte, len(b))
+			for k, x := range b {
+				bs[k] = x.(uint8)
+			}
+			return string(bs)
+		},
+		"github.com/valyala/fastjson.s2b": func(i *interpreter, _ *frame, _ *ssa.Function, a []value) value {
+			s := argStr(a[0])
+			out := make([]value, len(s))
+			for k := 0; k < len(s); k++ {
+				out[k] = s[k]
+			}
+			return out
+		},
+
 		// ---- errors ----
 		"errors.Is": func(i *interpreter, _ *frame, _ *ssa.Function, a []value) value {
 			return i.errorsIs(a[0].(iface), a[1].(iface))
